@@ -170,13 +170,20 @@ def rule_dispatch_refs(cx, tier):
                               f"{sorted(allowed_keys)}", fn.file, fn.line))
             # the number operation
             numops = set()
-            for f in [fn] + cx.F.closures_of(fn):
+
+            def number_ops_of(f, depth=0):
                 for c in f.calls():
                     t = cx.F.fns.get(c.resolved)
                     if t is not None and t.impl_self in ("KNumber", "&KNumber") and t.impl_trait in ("Add", "Sub", "Mul", "Div", "Rem"):
                         numops.add(t.impl_trait)
                     elif t is not None and t.qual == "koto_runtime::KNumber::pow":
                         numops.add("pow")
+                    elif t is not None and depth == 0 and t.crate.uname == "koto_runtime" and t.vis != "pub" and \
+                            not t.qual.startswith(VM) and t.kind != "Closure" and \
+                            any("KNumber" in (t.local_tstr(i) or "") for i in range(0, t.argc + 1)):
+                        number_ops_of(t, 1)      # a private helper on numbers (`number_remainder(a, b)`)
+            for f in [fn] + cx.F.closures_of(fn):
+                number_ops_of(f)
             if numops != {tr}:
                 r.add(Finding("R-DISPATCH-REFS", fn.qual, "number-op:" + ",".join(sorted(numops)) , f"the number arm of "
                               f"run_{op}{suffix} applies {sorted(numops)} instead of {tr}", fn.file, fn.line))
